@@ -71,6 +71,20 @@ fn clause_sql(sh: &Value, values: &Vec<String>) -> (String, Vec<String>) {
             if sh.get("before").is_some() { params.before = keys; } else { params.after = keys; }
             get_paging(&params, &mut sq)
         }
+        "fields" => {
+            use crate::database::query_language::query_parser::{EntityQuery, QueryField, QueryFieldType};
+            let f = field(sh["field"].as_str().unwrap(), &mut vals);
+            let field_type = match sh["qft"].as_str().unwrap() {
+                "Binary" => QueryFieldType::Binary,
+                "Json" => QueryFieldType::Json,
+                _ => QueryFieldType::Scalar,
+            };
+            let mut eq = EntityQuery::new();
+            eq.name = "ns.E".to_string();
+            eq.short_name = "1".to_string();
+            eq.fields.push(QueryField { field: f, alias: None, json_selector: None, field_type });
+            get_fields(&eq, &mut sq, "_node", 1)
+        }
         _ => {
             params.first = fvalue(vk, &mut vals, "a");
             get_limit(&params, &mut sq)
